@@ -7,6 +7,7 @@ Case lines (see coq/C20/Glue.v):
   PT op ; op ; ...                 unique_ptr (slots 0..3), shared_ptr (4..7), raw pointers held by the caller (8..9)
   VR op ; op ; ...                 variant<monostate,bool,int64,string,Counted,Thrower> in 3 slots
   FR op ; op ; ...                 function_ref<long long(long long,long long)>
+  CHU op ; ... / CHS op ; ...      chains of self-referential nodes (Node has a unique_ptr / shared_ptr<Node> next), roots head and aux
   CONV k                           converting construction, fixed table of instantiations
 """
 from tools.vlib import hx
@@ -14,7 +15,7 @@ from tools.vlib import hx
 ID = "C20"
 LEVEL = "proof"
 DRIVER = {"srcs": ["harness/c20_driver.cc"], "sdk": False}
-TRIVIAL_TAGS = {"pt_empty", "vr_empty", "fr_empty"}
+TRIVIAL_TAGS = {"pt_empty", "vr_empty", "fr_empty", "ch_empty"}
 ASSUMPTIONS = [
     "string_view operands either live in separate exact-size heap blocks (SV) or are two slices of one block (SVA: same start address with different lengths, identical, nested, overlapping views); the model and the SPEC see byte contents only, so any dependence of the result on addresses shows up as a disagreement",
     "the std lane of the driver (std::string_view, std::unique_ptr, std::shared_ptr, std::variant, std::function over std::ref; an index-checked "
@@ -248,14 +249,49 @@ def fr_case(rng):
     nops = rng.choice([2, 5, 10, 30])
     ops = []
     for i in range(nops):
-        k = rng.below(10)
-        if k < 2 or i == 0:
-            ops.append("bind %d" % rng.choice([0, 1, 2, 3, 4, 0, 2]))
-        elif k < 9:
+        k = rng.below(16)
+        if k < 3 or i == 0:
+            ops.append("bind %d" % rng.choice([0, 1, 2, 3, 4, 0, 2, 3]))
+        elif k < 8:
             ops.append("%s %d %d" % (rng.choice(["call", "call", "ccall"]), rng.below(2001) - 1000, rng.below(2001) - 1000))
+        elif k < 10:
+            ops.append("copy %d" % rng.choice([0, 0, 1, 2]))      # from a named non-const lvalue / const lvalue / rvalue
+        elif k < 13:
+            ops.append("callc %d %d" % (rng.below(2001) - 1000, rng.below(2001) - 1000))
+        elif k == 13:
+            ops.append("boolc")
+        elif k == 14:
+            ops.append("drop")
         else:
             ops.append("bool")
     return "FR " + " ; ".join(ops)
+
+
+CH_COMMON = ["pop", "pop", "pop2", "cuttail", "split", "join", "swapaux", "swaptail", "movehead", "selfnext", "clear", "clearaux"]
+
+
+def ch_case(rng):
+    """chains of length 2..6 are built over several steps, then handles that are members of a pointee are moved / reset / swapped"""
+    shared = rng.chance(1, 2)
+    ops = []
+    ln = 0
+    for _ in range(rng.choice([4, 8, 16, 30])):
+        k = rng.below(10)
+        if ln < 2 or k < 3:
+            ops.append(rng.choice(["push", "append", "push", "append", "pushaux"]))
+            ln += 1
+        else:
+            op = rng.choice(CH_COMMON + (["popc", "popc"] if shared else ["popr", "detach", "popr"]))
+            ops.append(op)
+            if op in ("pop", "popr", "popc", "detach"):
+                ln -= 1
+            elif op == "pop2":
+                ln = max(0, ln - 2)
+            elif op in ("cuttail", "split"):
+                ln = min(ln, 1)
+            elif op in ("clear", "movehead", "swapaux", "join", "swaptail"):
+                ln = 0 if op == "clear" else 2      # unknown: let the model decide validity
+    return ("CHS " if shared else "CHU ") + " ; ".join(ops)
 
 
 FIXED = [
@@ -267,7 +303,14 @@ FIXED = [
     "PT unew 0 1 ; sfromu 4 0 ; scc 5 4 ; sdel 4 ; sval 5 ; uval 0",
     "PT unull 0 ; sfromu 4 0 ; sval 4 ; snull 5 ; sswap 4 5 ; sma 4 5 ; sca 5 4",
     "PT",
-    "VR", "FR",
+    "VR", "FR", "CHU", "CHS",
+    # the source of a move is a member of the target's pointee: exactly one node goes (seeded C20_e)
+    "CHU push ; push ; push ; pop ; pop2",
+    "CHU append ; append ; append ; append ; popr ; pop2 ; detach ; swaptail ; join ; split ; cuttail",
+    "CHS push ; push ; push ; popc ; pop ; append ; append ; pop2 ; split ; join ; swaptail",
+    # a copy made from a named non-const function_ref refers to the callable, not to the source object (seeded C20_f)
+    "FR bind 3 ; copy 0 ; boolc", "FR bind 1 ; copy 0 ; bind 0 ; callc 1 2 ; drop ; callc 3 4",
+    "FR bind 0 ; copy 1 ; bind 1 ; callc 1 1 ; copy 2 ; bind 2 ; callc 1 1 ; boolc ; bind 4 ; copy 0 ; boolc",
     "VR vset 0 4 5 ; vcp 1 0 ; vset 0 3 x6162 ; vset 1 0 0 ; vempthrow 2 ; vcp 0 2 ; vcmp 0 2 ; vcmp 0 1 ; vswap 1 2 ; vvis 1 ; vget 1 0",
     "SV x x 0 0 0 0 0", "SV x x00 0 18446744073709551615 1 0 0", "SV xff x7f 0 1 0 1 255", "SV x61 x6100 1 18446744073709551615 2 0 97",
     "SV x6162 x6162 3 0 3 0 98", "SV x616200 x6162 2 18446744073709551615 0 2 0",
@@ -294,8 +337,10 @@ def gen(rng, tier):
         cases.append(pt_case(rng))
     for _ in range(500 * m):
         cases.append(vr_case(rng))
-    for _ in range(150 * m):
+    for _ in range(300 * m):
         cases.append(fr_case(rng))
+    for _ in range(500 * m):
+        cases.append(ch_case(rng))
     return cases
 
 
@@ -316,8 +361,8 @@ def neighbours(rng, cases):
                 o1 = rng.below(ln + 1); o2 = rng.choice([o1, rng.below(ln + 1)])
                 u[2], u[3], u[4], u[5] = str(o1), str(rng.below(ln - o1 + 1)), str(o2), str(rng.below(ln - o2 + 1))
                 out.append(" ".join(u))
-        elif t[0] in ("PT", "VR", "FR"):
-            ops = c[3:].split(" ; ")
+        elif t[0] in ("PT", "VR", "FR", "CHU", "CHS"):
+            ops = c[len(t[0]) + 1:].split(" ; ")
             for _ in range(20):
                 if len(ops) > 1:
                     i = rng.below(len(ops))
@@ -327,8 +372,8 @@ def neighbours(rng, cases):
 
 def shrink(case):
     t = case.split()
-    if t[0] in ("PT", "VR", "FR") and len(case) > 3:
-        ops = case[3:].split(" ; ")
+    if t[0] in ("PT", "VR", "FR", "CHU", "CHS") and len(case) > len(t[0]) + 1:
+        ops = case[len(t[0]) + 1:].split(" ; ")
         # shortest failing prefix first, then single deletions
         for k in range(1, len(ops)):
             yield t[0] + " " + " ; ".join(ops[:k])
